@@ -329,6 +329,24 @@ OptionCases ==
   \/ \E n \in 1..3, qn \in D, qm \in D :
         c = C("opt.gramSchmidt.InSitu.Q", <<n, qn, qm>>, <<>>, <<>>, Cls(qn = n /\ qm = n), <<n, n>>)
 
+(* Option VALUES outside the documented set.  newton.HessianModification   *)
+(* is a string: "None" (default), "LDL" and "Eigenvalue" are the values the *)
+(* package knows, anything else is "invalid hessian modification" - a      *)
+(* misspelt value must not silently select another method.  The value is   *)
+(* the last component of the op name ("<empty>" = the empty string).       *)
+(* scalarEstimator.NumericEstimator.Method is one of "newton", "bfgs",     *)
+(* "rprop".                                                                *)
+HessianModifications == {"None", "LDL", "Eigenvalue"}
+HessianModificationValues == HessianModifications \cup {"ldl", "eigenvalue", "none", "Cholesky", "Newton", "<empty>"}
+NumericMethods == {"newton", "bfgs", "rprop"}
+NumericMethodValues == NumericMethods \cup {"Newton", "BFGS", "adam", "<empty>"}
+OptionValueCases ==
+  \/ \E r \in {"newtonRoot", "newtonCrit", "newtonMin"}, v \in HessianModificationValues :
+        c = C("opt.newton.HessianModification." \o r \o "." \o v, <<2>>, <<>>, <<>>,
+              Cls(v \in HessianModifications), <<2>>)
+  \/ \E v \in NumericMethodValues :
+        c = C("opt.NumericEstimator.Method." \o v, <<2>>, <<>>, <<>>, Cls(v \in NumericMethods), <<>>)
+
 (* Caller-supplied or re-used InSitu work space of the wrong size: the      *)
 (* work space member w is wn x wm (vectors: wn) while the input is n x n.  *)
 (* The routine may reject the call or allocate a fitting work space, but a *)
@@ -357,7 +375,7 @@ InSituCases ==
               IF wn = n THEN "ok" ELSE "any", IF x[2] \in {"T4", "T1", "B"} THEN (IF x[1] \in {"newtonRoot", "newtonMin"} THEN <<n>> ELSE <<n, n>>) ELSE <<n>>)
 
 (* -------------------------------------------------------------- output *)
-Init == VectorCases \/ AliasCases \/ MatrixCases \/ PermuteCases \/ RealCases \/ ShrinkCases \/ AlgoCases \/ OptionCases \/ InSituCases
+Init == VectorCases \/ AliasCases \/ MatrixCases \/ PermuteCases \/ RealCases \/ ShrinkCases \/ AlgoCases \/ OptionCases \/ OptionValueCases \/ InSituCases
 Next == UNCHANGED c
 Spec == Init /\ [][Next]_c
 
